@@ -98,6 +98,16 @@ impl CostModel {
         }
     }
 
+    /// Local hard-coded default cost model of a Plutus version: each version has its own
+    /// parameters and costing functions.
+    pub fn default_for_language(version: &Language) -> Self {
+        match version {
+            Language::PlutusV1 => Self::v1(),
+            Language::PlutusV2 => Self::v2(),
+            Language::PlutusV3 => Self::v3(),
+        }
+    }
+
     /// Local hard-coded default cost model with builtin semantics selected for
     /// the requested protocol version. This is not ledger-supplied protocol
     /// params; callers with explicit params should use
